@@ -142,6 +142,78 @@ def observe(codec: str, frame_bytes: bytes, data: bytes, cap: int) -> str:
     return "original" if out == data else "changed"
 
 
+def classify(call, data: bytes) -> str:
+    from vgi_rpc._codec import DecompressionLimitExceeded
+
+    try:
+        out = call()
+    except DecompressionLimitExceeded:
+        return "limit"
+    except Exception as e:  # noqa: BLE001
+        return "error:" + type(e).__name__
+    return "original" if bytes(out) == data else "changed"
+
+
+class _FakeResp:
+    def __init__(self, body: bytes, content_type: str) -> None:
+        self.stream = io.BytesIO(body)
+        self.data = None
+        self.content_type = content_type
+        self.headers: dict = {}
+
+    def set_header(self, k: str, v: str) -> None:
+        self.headers[k] = v
+
+
+class _FakeReq:
+    def __init__(self, enc) -> None:
+        self.context = type("Ctx", (), {})()
+        self.context.response_encoding = enc
+        self.context.use_custom_encoding_header = False
+
+
+def entry_frame(entry: str, codec: str, frame: str, level, data: bytes, salt: int):
+    """-> (compressed bytes, decode(cap) callable, length the cap is compared with, label)"""
+    from vgi_rpc._codec import Encoding, compress, decompress
+    from vgi_rpc.http import _common as H
+
+    enc = {"zstd": Encoding.ZSTD, "gzip": Encoding.GZIP, "identity": Encoding.IDENTITY}[codec]
+    if entry == "legacy":
+        fb = H._compress_body(data, 3 if level is None else level)
+        return fb, (lambda cap: H._decompress_body(fb, max_output_size=cap)), len(data), "legacy_alias"
+    if entry == "header":
+        variants = ["module"] if frame != "stream" else STREAM_VARIANTS[codec]
+        v = variants[salt % len(variants)]
+        fb = make_frame(codec, frame, v, level, data)
+        hdr = [codec, codec.upper(), f"  {codec} ", codec.title(), f"{codec} "][salt % 5]
+        return fb, (lambda cap: H.decode_content_encoding(fb, hdr, max_output_size=cap)), len(data), f"header[{hdr!r}]/{v}"
+    if entry == "chain":
+        inner = "gzip" if codec == "zstd" else "zstd"
+        if salt % 3 == 2:
+            inner = codec                     # the same coding applied twice
+        ienc = {"zstd": Encoding.ZSTD, "gzip": Encoding.GZIP}[inner]
+        mid = compress(ienc, data, level=level)
+        fb = compress(enc, mid, level=level)
+        hdr = f"{inner}, {codec}" if salt % 2 else f"{inner.upper()} ,{codec}"
+        return fb, (lambda cap: H.decode_content_encoding(fb, hdr, max_output_size=cap)), max(len(mid), len(data)), f"chain[{hdr!r}]"
+    if entry == "middleware":
+        from vgi_rpc.http.server._middleware import _ARROW_CONTENT_TYPE, _CompressionMiddleware
+
+        mw = _CompressionMiddleware({enc: level})
+        resp = _FakeResp(data, _ARROW_CONTENT_TYPE)
+        mw.process_response(_FakeReq(enc), resp, None, True)
+        if resp.data is None or resp.headers.get("Content-Encoding") != codec:
+            raise MachineryError(f"response middleware did not compress a {len(data)}-byte body with {codec}: {resp.headers}")
+        fb = resp.data
+        return fb, (lambda cap: decompress(enc, fb, max_output_size=cap)), len(data), "server_middleware"
+    if entry == "token":
+        from vgi_rpc.http.server import _state_token as ST
+
+        fb = ST._pack_plaintext(data)
+        return fb, (lambda cap: ST._unpack_plaintext(fb)), len(data), "token_pack[" + ("zstd" if fb[:1] == b"\x01" else "raw") + "]"
+    raise MachineryError(f"unknown entry {entry}")
+
+
 def run(ctx: Ctx) -> None:
     warnings.filterwarnings("ignore")
     quick = ctx.quick
@@ -179,9 +251,13 @@ def run(ctx: Ctx) -> None:
 
     # rows that differ only in the cap share the concrete inputs and the compressed frame
     groups: dict = {}
+    other: dict = {}
     for cj in cases:
         c = cj["case"]
-        groups.setdefault((c["codec"], c["frame"], c["level"], c["len"]), []).append(c)
+        if c["entry"] == "codec":
+            groups.setdefault((c["codec"], c["frame"], c["level"], c["len"]), []).append(c)
+        else:
+            other.setdefault((c["entry"], c["codec"], c["frame"], c["level"], c["len"]), []).append(c)
     for ci, ((codec, frame, lvclass, lenclass), members) in enumerate(sorted(groups.items())):
         if codec == "identity":
             levels = [None]
@@ -214,9 +290,37 @@ def run(ctx: Ctx) -> None:
                         fb = make_frame(codec, frame, v, lv, data)
                         for c in members:
                             add(c, codec, frame, v, lv, kind, n, data, c["cap"], fb=fb)
+    # ---- the other entry points (legacy aliases, Content-Encoding header, coding chains, server middleware frames,
+    # state-token packing): same rows, reached through a different function
+    for gi, ((entry, codec, frame, lvclass, lenclass), members) in enumerate(sorted(other.items())):
+        ns = lens[lenclass]
+        ns = ns[:2] if quick else (ns if len(ns) <= 6 else [ns[0], ns[-1]] + [ns[(gi * 7 + j * 11) % len(ns)] for j in range(4)])
+        if codec == "identity":
+            levels = [None]
+        else:
+            levels = (QUICK_PICK[codec] if quick else (ZSTD_LEVELS if codec == "zstd" else GZIP_LEVELS))[lvclass]
+            if entry == "middleware":
+                levels = [lv for lv in levels if lv is not None and (lv <= 19 or lenclass in ("one", "small"))] or [3 if codec == "zstd" else 6]
+                levels = levels if not quick else levels[:1]
+                levels = levels if len(levels) <= 3 else [levels[0], levels[-1], levels[gi % len(levels)]]
+        for li, n in enumerate(ns):
+            for kind in (kinds_q[(gi + li) % 3], kinds_q[(gi + li + 1) % 3]):
+                data = contents.get(kind, n)
+                for lv in levels:
+                    try:
+                        fb, decode, n_eff, label = entry_frame(entry, codec, frame, lv, data, gi + li)
+                    except MachineryError:
+                        raise
+                    for c in members:
+                        cap = cap_value(c["cap"], n_eff)
+                        out = classify(lambda: decode(None if cap < 0 else cap), data)
+                        obs.append({"case": c, "obs": {"n": n_eff, "cap": cap, "outcome": out.split(":")[0]},
+                                    "_c": {"variant": label, "level": lv, "content": kind, "raw_outcome": out, "compressed_len": len(fb),
+                                           "original_len": n}})
+                        ctx.case([entry, codec, label, lv, n, kind, cap])
     # ---- exhaustive single bytes (thorough) and hypothesis bulk inside the classes
     by_key = {(cj["case"]["codec"], cj["case"]["frame"], cj["case"]["level"], cj["case"]["len"], cj["case"]["cap"]): cj["case"]
-              for cj in cases}
+              for cj in cases if cj["case"]["entry"] == "codec"}
     if not quick:
         for b in range(256):
             data = bytes([b])
@@ -262,6 +366,6 @@ def run(ctx: Ctx) -> None:
             raise MachineryError(f"class oracle and numeric oracle disagree on {o['case']} / {o['obs']}")
         for cl in clauses:
             c = o["case"]
-            ctx.violation(cl, {"codec": c["codec"], "frame": c["frame"], "variant": o["_c"]["variant"], "level_class": c["level"],
+            ctx.violation(cl, {"entry": c["entry"], "codec": c["codec"], "frame": c["frame"], "variant": o["_c"]["variant"], "level_class": c["level"],
                                "len_class": c["len"], "cap": c["cap"]},
                           {"observed": o["obs"], "concrete": o["_c"]})
